@@ -7,6 +7,7 @@ PROP = "C05"
 MODEL_VO = ["theories/Model/Pdo.vo"]
 COQ_IMPORTS = "From CV Require Import Model.Codec Model.Pdo."
 COQ_RUN = "run_pdo"
+ANCHORS = [("canopen.pdo.base", "PdoVariable.get_data"), ("canopen.pdo.base", "PdoVariable.set_data"), ("canopen.pdo.base", "PdoMap.add_variable"), ("canopen.pdo.base", "PdoMap._update_data_size"), ("canopen.variable", "Variable.raw")]
 COQ_CASE_TYPE = "pdo_case"
 RULE = ("case = a PDO layout (list of (type, bit length), total <= 64), an initial frame and a sequence of reads / writes of "
         "mapped variables; every integer type at every bit offset it can take, BOOLEAN as one bit, sub-byte fields of the 8-bit "
